@@ -697,6 +697,9 @@ impl<'a> FmtVisitor<'a> {
             )?,
             ast::VariantData::Unit(..) => rewrite_ident(&context, field.ident).to_owned(),
         };
+        // A visibility on a variant is rejected later by the compiler, but it is accepted by
+        // the parser (and seen by attribute macros and in `cfg`ed out code): keep it.
+        let variant_body = format!("{}{variant_body}", format_visibility(&context, &field.vis));
 
         let variant_body = if let Some(ref expr) = field.disr_expr {
             let lhs = format!("{variant_body:pad_discrim_ident_to$} =");
